@@ -340,49 +340,64 @@ func runSelfTest(def *propDef, repo, verif string) []mutantResult {
 	if err != nil {
 		return []mutantResult{{Name: "*", Status: "error", Detail: err.Error()}}
 	}
-	var res []mutantResult
-	for _, m := range loadMutants(verif, def.ID) {
-		mf := filepath.Join(verif, "mutants", def.ID, m.Name+".json")
-		cmd := exec.Command(self, "-prop", def.ID, "-repo", repo, "-verif", verif, "-mutant", mf)
-		out, err := cmd.Output()
-		r := mutantResult{Name: m.Name, Expect: m.Expect}
-		var child struct {
-			Status   string   `json:"status"`
-			Detail   string   `json:"detail"`
-			Violated []string `json:"violated"`
-		}
-		if jerr := json.Unmarshal(out, &child); jerr != nil {
-			r.Status = "error"
-			r.Detail = fmt.Sprintf("child: %v %v", err, jerr)
-			res = append(res, r)
-			continue
-		}
-		switch child.Status {
-		case "skipped", "error":
-			r.Status, r.Detail = child.Status, child.Detail
-		default:
-			for _, k := range child.Violated {
-				match := len(m.Expect) == 0
-				for _, e := range m.Expect {
-					if strings.HasPrefix(k, e) {
-						match = true
-					}
-				}
-				if match {
-					r.By = append(r.By, k)
-				}
-			}
-			if len(r.By) > 0 {
-				r.Status = "killed"
-			} else {
-				r.Status = "survived"
-				r.Detail = fmt.Sprintf("violations reported: %v", child.Violated)
-			}
-		}
-		fmt.Printf("  selftest %-40s %s %v\n", m.Name, r.Status, r.By)
-		res = append(res, r)
+	muts := loadMutants(verif, def.ID)
+	res := make([]mutantResult, len(muts))
+	sem := make(chan struct{}, 8)
+	done := make(chan int, len(muts))
+	for i, m := range muts {
+		go func(i int, m mutant) {
+			sem <- struct{}{}
+			defer func() { <-sem; done <- i }()
+			res[i] = runOneMutant(self, def, repo, verif, m)
+		}(i, m)
+	}
+	for range muts {
+		<-done
+	}
+	for _, r := range res {
+		fmt.Printf("  selftest %-40s %s %v %s\n", r.Name, r.Status, r.By, r.Detail)
 	}
 	return res
+}
+
+func runOneMutant(self string, def *propDef, repo, verif string, m mutant) mutantResult {
+	mf := filepath.Join(verif, "mutants", def.ID, m.Name+".json")
+	cmd := exec.Command(self, "-prop", def.ID, "-repo", repo, "-verif", verif, "-mutant", mf)
+	out, err := cmd.Output()
+	r := mutantResult{Name: m.Name, Expect: m.Expect}
+	var child struct {
+		Status   string   `json:"status"`
+		Detail   string   `json:"detail"`
+		Violated []string `json:"violated"`
+	}
+	if jerr := json.Unmarshal(out, &child); jerr != nil {
+		r.Status = "error"
+		r.Detail = fmt.Sprintf("child: %v %v", err, jerr)
+		return r
+	}
+	switch child.Status {
+	case "skipped", "error":
+		r.Status, r.Detail = child.Status, child.Detail
+	default:
+		for _, k := range child.Violated {
+			match := len(m.Expect) == 0
+			for _, e := range m.Expect {
+				if strings.HasPrefix(k, e) {
+					match = true
+				}
+			}
+			if match {
+				r.By = append(r.By, k)
+			}
+		}
+		if len(r.By) > 0 {
+			r.Status = "killed"
+		} else {
+			r.Status = "survived"
+			r.Detail = fmt.Sprintf("violations reported: %v", child.Violated)
+		}
+	}
+	return r
 }
 
 // runMutantChild: apply the mutant in memory, run the rules, print JSON.
